@@ -346,7 +346,7 @@ def open_decode(tpm_type, data, strict=True, cc=None, enc=None):
     return Binary.marshal(**kwargs)
 
 
-ROOT = (("log", None), ("msg", None))
+ROOT = (("log", None), ("msg", 2))  # an element of a list of messages: the last node carries an index
 
 
 def _unroot(p, esc):
@@ -360,14 +360,16 @@ def _unroot(p, esc):
 
 
 def run(*args, rooted=False, **kwargs):
-    """rooted=True: the decode is given root_path='.log.msg'; every recorded path (events, warnings, error) is then mapped
+    """rooted=True: the decode is given root_path='.log.msg[2]'; every recorded path (events, warnings, error) is then mapped
     back to the default root so that all comparisons stay as they are; a path that does not lie under the root it was
     given is kept and reported in ``t.root_escapes``."""
     if rooted:
         from tpmstream.common.path import Path
 
         mk = dict(kwargs.get("marshal_kwargs") or {})
-        mk["root_path"] = Path.from_string("." + ".".join(n for n, _ in ROOT))
+        from tpmstream.common.path import PATH_NODE_ROOT_NAME, PathNode
+
+        mk["root_path"] = Path([PathNode(PATH_NODE_ROOT_NAME)] + [PathNode(n, i) for n, i in ROOT])
         kwargs["marshal_kwargs"] = mk
     t = _run(*args, **kwargs)
     t.root_escapes = []
